@@ -2,6 +2,7 @@ package main
 
 import (
 	"fmt"
+	"go/types"
 	"strings"
 )
 
@@ -158,7 +159,54 @@ func buildSave(p *Program, tier string) ([]*Unit, []UnitError) {
 	if err != nil {
 		return nil, []UnitError{{"save", err.Error()}}
 	}
-	return []*Unit{u}, nil
+	units := []*Unit{u}
+	// the path each file is saved to is the name of the token.File it was parsed into (not a //line-adjusted position)
+	dopts := &UnitOpts{Trace: true}
+	dopts.AtExit = func(ex *Exec, frm *frame, g string, st *State, res []Val) {
+		name := "DecorateNode"
+		dv, nv := frm.params["d"], frm.params["n"]
+		var fileCall, nameCall, posCall *Event
+		var upd []*Event
+		for i := range ex.trace {
+			ev := &ex.trace[i]
+			if ev.Depth != 0 {
+				continue
+			}
+			switch {
+			case ev.Kind == "call" && strings.HasSuffix(ev.Callee, "FileSet).File"):
+				fileCall = ev
+			case ev.Kind == "call" && strings.HasSuffix(ev.Callee, "token.File).Name"):
+				nameCall = ev
+			case ev.Kind == "call" && strings.HasSuffix(ev.Callee, "ast.File).Pos"):
+				posCall = ev
+			case ev.Kind == "mapupdate":
+				if mt, ok := ev.Args[0].Typ.Underlying().(*types.Map); ok && typeKey(mt.Key()) == "*dst.File" {
+					upd = append(upd, ev)
+				}
+			}
+		}
+		ok := fileCall != nil && nameCall != nil && posCall != nil && len(upd) == 2 && fileCall.Res != nil && nameCall.Res != nil && posCall.Res != nil
+		o := ex.oblige(name+"#filenames:recorded_from_the_file_set", "frame", "true", map[bool]string{true: "true", false: "false"}[ok],
+			"Filenames is written once for a package's files and once for a single file, the latter from Fset.File(n.Pos()).Name()", "")
+		o.Guard = "true"
+		if !ok {
+			return
+		}
+		env := &SpecEnv{ex: ex, vars: map[string]Val{"d": dv, "n": nv}, cur: st, old: frm.entry, pkg: frm.fn.Pkg.Pkg}
+		_ = env
+		single := upd[len(upd)-1]
+		ex.oblige(name+"#filenames:file_set_lookup_uses_the_file_position", "schema", fileCall.Guard,
+			and(eq(fileCall.Args[1].T, posCall.Res.T), eq(iRef(nv.T), posCall.Args[0].T)), "Fset.File is asked for the position of the file being decorated", "")
+		ex.oblige(name+"#filenames:name_of_that_token_file", "schema", nameCall.Guard, eq(nameCall.Args[0].T, fileCall.Res.T), "Name() is taken from the token.File just looked up", "")
+		ex.oblige(name+"#filenames:stored_for_the_decorated_file", "schema", single.Guard,
+			and(eq(single.Args[2].T, nameCall.Res.T), eq(single.Args[1].T, iRef(res[0].T))), "Filenames[result] is that name", "")
+		ex.obligeSpec(env.with(single.St), name+"#filenames:stored_in_the_decorators_table", "schema", single.Guard, "$m == d.Filenames", map[string]Val{"$m": single.Args[0]})
+	}
+	du, derr := p.verifyFunc(pkgDecorator+".(*Decorator).DecorateNode", dopts)
+	if derr != nil {
+		return units, []UnitError{{"DecorateNode", derr.Error()}}
+	}
+	return append(units, du), nil
 }
 
 func init() {
@@ -167,6 +215,10 @@ func init() {
 		Title:    "Saving a package writes exactly its files, unchanged unless edited",
 		Packages: []string{pkgDecorator},
 		Build:    buildSave,
+		Select: func(n string) bool {
+			return !strings.Contains(n, "DecorateNode") || strings.Contains(n, "#filenames:")
+		},
+		Siblings: "C17 (DecorateNode's error propagation)",
 		Assumptions: []string{
 			"writeFile is modelled by a ghost log (nwrites, wname, wdata, wperm); Save/SaveWithResolver pass ioutil.WriteFile",
 			"assumed: Restorer.Fprint writes the import-managed print of the one file into its writer and nothing on error; bytes.Buffer's zero value is empty and Bytes() returns what was written; printing does not touch Package.Syntax, Package.Decorator or Decorator.Filenames",
